@@ -154,14 +154,6 @@ Inductive doc_scalar : engine -> sty -> jv -> res pv -> Prop :=
 (* v1: "bytes come from base64" *)
 | d_bytes_v1 : forall s, doc_scalar V1 SBytes (JStr s) (rmap VBytes (o_b64 O s)).
 
-(* the open defect F22: v1 loads a number at a datetime position with fromtimestamp(x, None) *)
-Definition f22_region (e : engine) (s : sty) (j : jv) : bool :=
-  match e, s, j with
-  | V1, SDateTime, JInt _ => true
-  | V1, SDateTime, JFloat _ => true
-  | _, _, _ => false
-  end.
-
 (* ---- container contexts ------------------------------------------------------ *)
 Inductive ctx :=
 | CHole
@@ -296,7 +288,7 @@ Fixpoint lift (e : engine) (c : ctx) (g : jv -> option (res pv)) (j : jv) : opti
               (seqM (zap (map (fun t x => Some (load O e t x)) pre ++ lift e c' g ::
                           map (fun t x => Some (load O e t x)) post) l))
           else None
-      | _ => None          (* EnvWizard strings at a fixed-arity tuple: open defect F23 *)
+      | _ => None          (* EnvWizard strings at a fixed-arity tuple: open defect F36 *)
       end
   | CDict k c' =>
       match doc_items e j with
